@@ -660,6 +660,8 @@ type vfC10ProcCase struct {
 	N         int `json:"n"`         // requests the runner wants to send, one after the other
 	ExitAfter int `json:"exitAfter"` // the client exits after this many requests (-1: runs to the end of its input)
 	ExitCode  int `json:"exitCode"`
+	// BigRequests: every request is larger than an OS pipe buffer, so a send can be in the middle of its write when the client goes away
+	BigRequests bool `json:"bigRequests,omitempty"`
 	Garbage   int `json:"garbage"` // the n-th answer is garbage (0: never)
 }
 
@@ -700,7 +702,11 @@ func vfC10ProcCheck(c vfC10ProcCase) error {
 			mu.Lock()
 			attempts[i] = a
 			mu.Unlock()
-			err := runner.sendRequest(&conformancev1.ClientCompatRequest{TestName: vfC10Name(i)}, func(name string, resp *conformancev1.ClientCompatResponse, err error) {
+			req := &conformancev1.ClientCompatRequest{TestName: vfC10Name(i)}
+			if c.BigRequests {
+				req.RequestHeaders = []*conformancev1.Header{{Name: "x-padding", Value: []string{strings.Repeat("p", 300<<10)}}}
+			}
+			err := runner.sendRequest(req, func(name string, resp *conformancev1.ClientCompatResponse, err error) {
 				mu.Lock()
 				a.callbacks = append(a.callbacks, vfC10CB{name, resp, err})
 				mu.Unlock()
@@ -821,6 +827,9 @@ func TestVerifC10Process(t *testing.T) {
 		for g := 1; g <= n; g += 2 {
 			rows = append(rows, vfC10ProcCase{N: n, ExitAfter: -1, Garbage: g})
 		}
+	}
+	for _, k := range []int{0, 1, 3} {
+		rows = append(rows, vfC10ProcCase{N: 4, ExitAfter: k, ExitCode: k % 2, BigRequests: true})
 	}
 	shard, shards := verifkit.Shard()
 	var mu sync.Mutex
